@@ -43,6 +43,10 @@ func renderTypeGraph(g []typeShape, site string) string {
 			sb.WriteString("{\"p\": " + nm(s.A) + "}\n")
 		case "optprop":
 			sb.WriteString("{\n  \"p\": " + nm(s.A) + " // {optional: true}\n}\n")
+		case "nullref":
+			sb.WriteString(nm(s.A) + " // {nullable: true}\n")
+		case "keyref":
+			sb.WriteString("{ " + nm(s.A) + " : 1 }\n")
 		case "arr":
 			sb.WriteString("[" + nm(s.A) + "]\n")
 		case "allof":
